@@ -49,7 +49,14 @@ type vfC14Server struct {
 
 func vfNewC14Server() (s *vfC14Server) {
 	s = &vfC14Server{cutAt: -1}
-	s.srv = httptest.NewServer(http.HandlerFunc(func(w http.ResponseWriter, _ *http.Request) {
+	s.srv = httptest.NewServer(http.HandlerFunc(func(w http.ResponseWriter, r *http.Request) {
+		if strings.HasPrefix(r.URL.Path, "/gone") {
+			// a source that does not deliver, after a moment
+			time.Sleep(30 * time.Millisecond)
+			http.Error(w, "gone", http.StatusServiceUnavailable)
+
+			return
+		}
 		s.mu.Lock()
 		b, cut := s.body, s.cutAt
 		s.mu.Unlock()
@@ -216,6 +223,29 @@ func TestVFC14FilterList(t *testing.T) {
 				vfC14.Sample("filterlist", map[string]any{"rules": n, "bytes": len(b), "crash_points": cp, "position": i, "changed": changed})
 			}
 			prevBody = body
+		}
+
+		// The administrator gives the list another source, which fails to
+		// deliver: the request is refused, and at no instant may the stored list
+		// be anything but the complete version it was (the readers keep
+		// sampling during the attempt).
+		if before, rerr := os.ReadFile(path); rerr == nil && len(before) > 0 && rapid.Bool().Draw(t, "failed_repoint") {
+			_, _ = w.Drain()
+			_, serr := d.filterSetProperties(srv.srv.URL+"/list.txt", FilterYAML{Enabled: true, URL: srv.srv.URL + "/gone/list.txt", Name: "list"}, false)
+			if serr == nil {
+				t.Fatalf("re-pointing the list to a source that answers 503 was accepted")
+			}
+			evs, _ := w.Drain()
+			if _, _, aerr := vfkit.CheckAtomicHistory(evs, fdir, name); aerr != nil {
+				t.Fatalf("refused re-point: %v", aerr)
+			}
+			after, _ := os.ReadFile(path)
+			if string(after) != string(before) {
+				t.Fatalf("a refused re-point of the list (new source answers 503) changed the stored list: %d -> %d bytes", len(before), len(after))
+			}
+			vfC14.Eval()
+			vfC14.Class("filterlist:refused_repoint")
+			vfC14.Nontrivial(fmt.Sprintf("filterlist|refused_repoint|%d", len(before)))
 		}
 
 		for k, c := range rd.Stop() {
